@@ -102,7 +102,9 @@ class ShuffleBase(Expr):
         if isinstance(parent, Projection):
             # Move the column projection to come
             # before the abstract Shuffle
-            projection = determine_column_projection(self, parent, dependents)
+            projection = _convert_to_list(
+                determine_column_projection(self, parent, dependents)
+            )
 
             partitioning_index = self.partitioning_index
             if isinstance(partitioning_index, (str, int)):
